@@ -265,8 +265,9 @@ class Parser:
         elif pstate.is_next(_not):
             pstate.advance()
             from pymbolic.primitives import LogicalNot
+            # as in Python, 'not' is looser than comparisons, tighter than 'and'
             left_exp = LogicalNot(
-                    self.parse_expression(pstate, _PREC_UNARY))
+                    self.parse_expression(pstate, _PREC_LOGICAL_AND))
         elif pstate.is_next(_bitwisenot):
             pstate.advance()
             from pymbolic.primitives import BitwiseNot
